@@ -227,10 +227,37 @@ func mashDrive(args []string) error {
 		switch kind := sid % 4; kind {
 		case 0, 1: // one content, many presentations
 			k := pickK()
+			if sid%7 == 4 || sid%7 == 1 { // k-mers longer than a machine word's worth of bases, longer than conventional gap runs
+				k = []int{33, 101, 64, 120, 150}[(sid/7+r.Intn(2))%5]
+			}
+			huge := big && (sid == 8 || sid == 9) // one sequence of more than 2^20 bases, a few bases (fewer than k) beyond the multiple
 			nseq := 1 + r.Intn(4)
 			var seqs [][]byte
+			if huge {
+				k = []int{21, 31}[sid%2]
+				nseq = 0
+				seqs = append(seqs, randSeq(1<<20+1+r.Intn(k-1)))
+			}
 			for i := 0; i < nseq; i++ {
 				ln := r.Intn(70)
+				if k > 32 {
+					ln += r.Intn(3 * k)
+				}
+				if i == 0 && (k > 32 || r.Intn(4) == 0) { // a run of one letter about as long as k (or as an assembly gap)
+					run := []int{k - 2, k - 1, k, k + 1, 2 * k, 100, 110}[r.Intn(7)]
+					if k > 100 {
+						run = []int{100, k - 1, (100 + k) / 2, k, k + 1, 99}[(sid/7+r.Intn(2))%6]
+					}
+					c := "AT"[r.Intn(2)]
+					if withN {
+						c = 'N'
+					}
+					at := r.Intn(ln + 1)
+					sq := randSeq(ln)
+					sq = append(append(append([]byte{}, sq[:at]...), bytes.Repeat([]byte{c}, max(run, 0))...), sq[at:]...)
+					seqs = append(seqs, flipCase(sq, []int{0, 0, 30, 100}[r.Intn(4)]))
+					continue
+				}
 				if r.Intn(5) == 0 {
 					ln = r.Intn(k + 2) // around k: shorter sequences contribute nothing
 				}
@@ -242,6 +269,17 @@ func mashDrive(args []string) error {
 			n := 1 + r.Intn(40)
 			if r.Intn(3) == 0 {
 				n = 1 + r.Intn(6)
+			}
+			if sid%2 == 0 || k > 100 { // a sketch with room for every k-mer of the content: nothing is hidden behind the n-th smallest value
+				n = 600 + r.Intn(600)
+			}
+			if huge {
+				n = 1<<20 + 64 // every distinct canonical k-mer is in the sketch
+				sketch(n, k, seqs, true, "reference")
+				sketch(n, k, [][]byte{revComp(seqs[0])}, true, "revcomp")
+				cut := 1<<19 + r.Intn(1000)
+				sketch(n, k, [][]byte{seqs[0][cut-k+1:], seqs[0][:cut]}, true, "two overlapping parts")
+				break
 			}
 			sketch(n, k, seqs, true, "reference")
 			for v := 0; v < 9; v++ {
